@@ -6,7 +6,7 @@ import logging
 from abc import ABC, abstractmethod
 from asyncio.exceptions import CancelledError
 from asyncio.streams import StreamReader, StreamWriter, start_server
-from asyncio.tasks import Task, create_task
+from asyncio.tasks import Task, create_task, sleep
 from pathlib import Path
 from typing import TYPE_CHECKING, Any, Generic, TypeVar
 
@@ -155,7 +155,16 @@ class ControlServer(ABC, Generic[ClientT]):
         self._server = await self._get_server_instance(
             self._client_connected_cb, **self._server_kwargs
         )
-        return create_task(self._serve_forever())
+        task = create_task(self._serve_forever())
+        # Let the serving task take its first step before the caller gets hold
+        # of it: a task that is cancelled before that never runs any of its
+        # code, so the server would keep serving with nobody left to stop it.
+        try:
+            await sleep(0)
+        except CancelledError:
+            task.cancel()
+            raise
+        return task
 
 
 class TCPControlServer(ControlServer[TCPControlClient]):
